@@ -61,11 +61,12 @@ structure St where
   new : Array String := #[]
   reported : List TSRange := []
   mode : Nat := 0   -- 0 none, 1 old, 2 new, 3 lang
+  fixed : Bool := false
 
 def runCase (s : St) : String :=
   match s.langs.lookup s.lang, parseDump s.old.toList, parseDump s.new.toList with
   | some li, some o, some n =>
-    let ch := treeChangedRanges li.alias o n
+    let ch := treeChangedRanges li.alias s.fixed o n
     let corr := if ch.fuelOut then "DIFF fuel"
       else if decide (ch.ranges = s.reported) then "ok"
       else s!"DIFF model={outStr ch.ranges} impl={outStr s.reported}"
@@ -73,11 +74,19 @@ def runCase (s : St) : String :=
     let j := match v.fail with
       | none => "ok"
       | some m => s!"FAIL {m}"
+    -- classify a failure: is it exactly what fixes/C04-range-override-in-padding.diff repairs?
+    -- (the port with the fixed override span, on the same two trees, satisfies the judge)
+    let cause := match v.fail with
+      | none => "-"
+      | some _ =>
+        if !s.fixed && (judgeChanged li o n (treeChangedRanges li.alias true o n).ranges s.len).fail.isNone
+          && !decide (o.ranges = n.ranges)
+        then "override-span-in-padding" else "other"
     let mono := if traceAdmissible [] (ch.main ++ ch.post) then "ok"
       else "bad:" ++ ",".intercalate ((ch.main ++ ch.post).map fun (a, b) => s!"{a.bytes}-{b.bytes}")
     let ms := if matchSound li o n ch.matched then "ok" else "bad"
     let rchg := if decide (o.ranges = n.ranges) then 0 else 1
-    s!"{s.id} corr={corr} judge={j} mono={mono} msound={ms} nr={s.reported.length} diffbytes={v.diffBytes} same={v.coveredSame} rchg={rchg} calls={ch.main.length + ch.post.length} matched={ch.matched.length}"
+    s!"{s.id} corr={corr} judge={j} cause={cause} mono={mono} msound={ms} nr={s.reported.length} diffbytes={v.diffBytes} same={v.coveredSame} rchg={rchg} calls={ch.main.length + ch.post.length} matched={ch.matched.length}"
   | _, _, _ => s!"{s.id} corr=BADINPUT judge=BADINPUT"
 
 def step (s : St) (line : String) : IO St := do
@@ -99,6 +108,7 @@ def step (s : St) (line : String) : IO St := do
   match line.splitOn " " with
   | "F" :: id :: op :: ws => IO.println (runF id op (ws.map natOf)); return s
   | ["lang", id] => return { s with mode := 3, curLang := id, li := {} }
+  | ["variant", v] => return { s with fixed := v == "override-compared-end" }
   | ["case", id, lang] => return { s with id := id, lang := lang, old := #[], new := #[], reported := [], len := 0 }
   | ["len", n] => return { s with len := natOf n }
   | ["old"] => return { s with mode := 1 }
@@ -110,5 +120,5 @@ def step (s : St) (line : String) : IO St := do
   | ["run"] => IO.println (runCase s); return s
   | _ => return s
 
-def main : IO Unit := do
-  let _ ← foldLines (← IO.getStdin) ({} : St) step
+def main (args : List String) : IO Unit := do
+  let _ ← foldLines (← IO.getStdin) ({ fixed := args.contains "--override-compared-end" } : St) step
